@@ -95,6 +95,7 @@ def rule_lexical(body, applied):
         ('R1', r'\b(u16|u32|u64)::from_be_bytes\(', r'\1_from_be_bytes_v('),
         ('R2', r'\.extend\(', '.extend_v('),
         ('R3', r'\|_\|', '|_v0|'),
+        ('R14', r'\blet\s+([A-Za-z_][A-Za-z0-9_]*)\s*=\s*&mut\s*\*', r'let mut \1 = '),
         ('R12', r'\bstd::io::ErrorKind\b', 'IoErrorKind'),
         ('R12', r'\bstd::io::Error\b', 'IoError'),
     ]
@@ -395,6 +396,32 @@ def norm_sig(sig):
     return norm_ws(s)
 
 
+def desugar_impl_args(head):
+    """E1: argument-position `x: impl Bound` -> named generic parameter `<ImplK: Bound>` / `x: ImplK`
+    (the Rust-defined desugaring; Verus mis-handles `impl Trait` arguments that are mentioned in an ensures)."""
+    sig = head_signature(head)
+    rest = head[len(sig):] if head.startswith(sig) else head[head.index(sig) + len(sig):]
+    pre = head[:head.index(sig)]
+    gens = []
+    def repl(m):
+        k = len(gens)
+        gens.append('Impl%d: %s' % (k, m.group(2).strip()))
+        return '%s: Impl%d' % (m.group(1), k)
+    # only in the parameter list (before '->' / where)
+    po = sig.index('(')
+    pc = _find_matching(sig, po)
+    params = re.sub(r'([A-Za-z_][A-Za-z0-9_]*)\s*:\s*impl\s+([^,()]+(?:<[^()]*>)?)', repl, sig[po:pc + 1])
+    if not gens:
+        return head
+    name_part = sig[:po]
+    if name_part.rstrip().endswith('>'):
+        i = name_part.rindex('<')
+        name_part = name_part[:name_part.rstrip().rindex('>')] + ', ' + ', '.join(gens) + '>'
+    else:
+        name_part = name_part.rstrip() + '<' + ', '.join(gens) + '>'
+    return pre + name_part + params + sig[pc + 1:] + rest
+
+
 # --------------------------------------------------------------------------
 # type extraction
 # --------------------------------------------------------------------------
@@ -456,6 +483,50 @@ def widen_fields(decl):
     return decl[:i + 1] + '\n    ' + sep.join(parts) + '\n' + decl[close:]
 
 
+def default_clauses(decl, name):
+    """Per-field postconditions of a derived Default (decl is the widened, attribute-free struct text)."""
+    m, _ = mask(decl)
+    i = min([p for p in (m.find('{'), m.find('(')) if p >= 0])
+    close = match_close(m, i)
+    tuple_struct = decl[i] == '('
+    inner = decl[i + 1:close]
+    parts, depth, cur = [], 0, ''
+    for ch in inner:
+        if ch in '<([{':
+            depth += 1
+        elif ch in '>)]}':
+            depth -= 1
+        if ch == ',' and depth == 0:
+            parts.append(cur)
+            cur = ''
+        else:
+            cur += ch
+    if cur.strip():
+        parts.append(cur)
+    res = []
+    for k, p in enumerate(parts):
+        p = re.sub(r'^\s*pub\s+', '', p.strip())
+        if tuple_struct:
+            fname, ty = str(k), p
+        else:
+            fname, ty = [x.strip() for x in p.split(':', 1)]
+        if ty == 'bool':
+            res.append('!r.%s' % fname)
+        elif ty.startswith('Vec<'):
+            res.append('r.%s@.len() == 0' % fname)
+        elif ty in ('u8', 'u16', 'u32', 'u64', 'usize', 'i32', 'i64'):
+            res.append('r.%s == 0' % fname)
+        elif ty.startswith('Option<'):
+            res.append('r.%s is None' % fname)
+        elif ty in ('Sha256', 'Sha512', 'Sha1', 'Ripemd160'):
+            res.append('r.%s.absorbed@ == Seq::<u8>::empty()' % fname)
+        elif ty == 'Hash':
+            res.append('r.%s.0@.len() == 0' % fname)
+        else:
+            raise GenError('struct %s: derived Default for field type %s not supported' % (name, ty))
+    return res
+
+
 def extract_type(kind, name, relpath, opts, info):
     rf = RustFile(os.path.join(REPO, relpath))
     try:
@@ -490,11 +561,9 @@ def extract_type(kind, name, relpath, opts, info):
         if 'default' in opts:
             if 'Default' not in derives:
                 raise GenError('struct %s: template asks for derived Default but source derives %s' % (name, derives))
-            mm = re.search(r'\(\s*pub\s+Vec<[^()]*>\s*\)', decl)
-            if not mm:
-                raise GenError('struct %s: derived Default only supported for a single Vec tuple field' % name)
-            out.append('impl Default for %s { #[verifier::external_body] fn default() -> (r: Self) ensures r.0@.len() == 0 { unimplemented!() } }' % name)
-            info['assumptions'].append('derive(Default) on %s yields the empty Vec' % name)
+            out.append('impl Default for %s { #[verifier::external_body] fn default() -> (r: Self) ensures %s { unimplemented!() } }'
+                       % (name, ', '.join(default_clauses(decl, name))))
+            info['assumptions'].append('derive(Default) on %s sets every field to its type default' % name)
     else:
         want = [d for d in ('Clone', 'Copy', 'PartialEq', 'Eq') if d in derives and d.lower() in opts]
         if 'clonespec' in opts:
@@ -569,7 +638,7 @@ def emit_fn(contract, verified, info):
     if real_sig != want_sig:
         raise GenError('%s: signature of %s changed (lost anchor)\n  source  : %s\n  contract: %s'
                        % (contract.origin, contract.key, real_sig, want_sig))
-    head = contract.head.rstrip('\n')
+    head = desugar_impl_args(contract.head.rstrip('\n'))
     rec = {'fn': contract.key, 'source': '%s:%d-%d' % (contract.src_path, item.line, item.end_line),
            'contract': contract.origin, 'verified_here': verified}
     if not verified:
